@@ -356,6 +356,73 @@ def second_call_case(args) -> dict:
     return out
 
 
+def kw_feed(dataset_filler, w, items, tag="default", split=None):
+    """feed_writer taking keyword arguments (custom_kwarguments)."""
+    with dataset_filler as f:
+        for sp, idt in items:
+            f.write_example(values=D.example(tuple(idt)), split=split or sp)
+    return (w, tag, split)
+
+
+def kwargs_case(args) -> dict:
+    """custom_kwarguments: every pattern of empty / non-empty keyword dicts
+    over three writers; writer i must receive exactly entry i."""
+    fmt, single = args
+    out = {"spec": "kwargs", "fmt": fmt, "bad": [], "executions": 0,
+           "harness": None, "outcomes": 0}
+    box = core.fresh_dir("c09k")
+    try:
+        import itertools as it
+        import multiprocessing
+        multiprocessing.set_start_method("fork", force=True)
+        options = [{}, {"tag": "t"}, {"split": "test"},
+                   {"tag": "u", "split": "holdout"}]
+        n = 0
+        for pattern in it.product(range(len(options)), repeat=3):
+            if len(set(pattern)) == 1 and pattern[0] != 0:
+                continue
+            n += 1
+            root = box / f"d{n}"
+            ds_ = D.create(root, fmt=fmt, eps=2)
+            kws = [dict(options[i]) for i in pattern]
+            writers = [[("train", (0, w, q)) for q in range(w + 1)]
+                       for w in range(3)]
+            ref: dict = {}
+            for w, items in enumerate(writers):
+                for sp, idt in items:
+                    ref.setdefault(kws[w].get("split") or sp, []).append(idt)
+            desc = (f"{fmt} custom_kwarguments={kws} "
+                    f"single_process={single}")
+            case_ = {"fmt": fmt, "kind": "kwargs", "single": single}
+            out["executions"] += 1
+            try:
+                res = ds_.write_multiprocessing(
+                    feed_writer=kw_feed,
+                    custom_arguments=[(w, writers[w]) for w in range(3)],
+                    custom_kwarguments=kws, single_process=single)
+            except Exception as e:  # pylint: disable=broad-except
+                out["bad"].append(("fails", f"{desc}: {type(e).__name__}: "
+                                   f"{str(e)[:160]}", case_))
+                continue
+            want = [(w, kws[w].get("tag", "default"), kws[w].get("split"))
+                    for w in range(3)]
+            if [tuple(r) for r in res] != want:
+                out["bad"].append(("kwargs", f"{desc}: the writers received "
+                                   f"{[tuple(r) for r in res]}, expected "
+                                   f"{want}", case_))
+            pbad, _ = opseq.inspect(root, ds_, ref, 2, fmt)
+            for prop, sym, msg in pbad:
+                out["bad"].append((sym, f"{desc}: {msg}", case_))
+            shutil.rmtree(root, ignore_errors=True)
+        out["outcomes"] = n
+    except Exception as e:  # pylint: disable=broad-except
+        out["harness"] = f"{type(e).__name__}: {e} " + traceback.format_exc(
+        )[-500:]
+    finally:
+        shutil.rmtree(box, ignore_errors=True)
+    return out
+
+
 # ---------------------------------------------------------------------------
 # environment answer: the number of CPUs the library may look at
 # ---------------------------------------------------------------------------
@@ -710,6 +777,20 @@ def run(ctx):
                  "one: interleavings of the writers' steps, recount, and no "
                  "parent write into a running writer's directory",
                  executions=ns)
+        nk = 0
+        for r in ex.map(kwargs_case, [("fb", True), ("fb", False)]):
+            if r["harness"]:
+                ctx.harness_error(f"kwargs: {r['harness']}")
+                continue
+            nk += r["executions"]
+            ctx.add(states=r["outcomes"], transitions=r["executions"],
+                    traces_validated_against_impl=r["executions"])
+            for sym, msg, c in r["bad"]:
+                ctx.violation({"engine": "kwargs", "symptom": sym,
+                               "fmt": r["fmt"]}, msg, c)
+        ctx.part("custom_kwarguments: every pattern of 4 keyword dicts "
+                 "(empty, tag, split, both) over three writers, pool and "
+                 "single process", executions=nk)
         wide = [[("train", 1)], [("test", 2)], [], [("train", 3), ("test", 1)],
                 [("holdout", 1)], [("train", 2)]]
         vtasks = [(f, sp, cpu, single)
@@ -791,6 +872,9 @@ def run(ctx):
 
 def replay(case_):
     core.import_sedpack_quietly()
+    if case_.get("kind") == "kwargs":
+        r = kwargs_case((case_["fmt"], case_["single"]))
+        return [m for _, m, _ in r["bad"]]
     spec = [[tuple(p) for p in w] for w in case_["spec"]]
     if case_.get("effects"):
         from vf.explorer import FixedChooser
@@ -805,6 +889,9 @@ def replay(case_):
             return ([str(err)] if err else []) + [m for _, m, _ in r["bad"]]
         finally:
             shutil.rmtree(box, ignore_errors=True)
+    if case_.get("kind") == "kwargs":
+        r = kwargs_case((case_["fmt"], case_["single"]))
+        return [m for _, m, _ in r["bad"]]
     if case_.get("kind") == "second":
         r = second_call_case((case_["fmt"], spec, [case_["order"]]))
         return [m for _, m, _ in r["bad"]]
